@@ -384,6 +384,108 @@ def splitBlock (outSizes inSizes : List Nat) (J : Mat α) (o i : Nat) : Mat α :
 def splitVec (outSizes : List Nat) (v : Vec α) (o : Nat) : Vec α :=
   fun a => v (offsetOf outSizes o + a)
 
+/-! ### Surrogate discipline built with explicit name lists
+
+`SurrogateDiscipline(model, input_names=…, output_names=…)`: the grammars hold the requested names
+(a reordering of the model's inputs, any sub-list of the model's outputs in any order) while the model
+keeps its own layout. A requested name is given by its position in `model.output_names` /
+`model.input_names`; the prediction array and the Jacobian are laid out by the MODEL's names. -/
+
+/-- `execute()[name]` for the `n`-th requested output: the window of the model's prediction that belongs
+    to this variable *in the model's layout* (`predict` returns a dictionary split by
+    `model.output_names`; the discipline keeps the requested names). -/
+def surOutput (outSizes : List Nat) (v : Vec α) (selOut : List Nat) (n : Nat) : Vec α :=
+  splitVec outSizes v (selOut.getD n 0)
+
+/-- `linearize()[out][in]` for the `n`-th requested output and the `m`-th requested input. -/
+def surBlock (outSizes inSizes : List Nat) (J : Mat α) (selOut selIn : List Nat) (n m : Nat) : Mat α :=
+  splitBlock outSizes inSizes J (selOut.getD n 0) (selIn.getD m 0)
+
+/-- The output data of the discipline as one array, in the order of its output grammar. -/
+def concatSel (outSizes : List Nat) (v : Vec α) : List Nat → Vec α
+  | [] => fun _ => 0
+  | o :: rest => fun r =>
+      if r < outSizes.getD o 0 then v (offsetOf outSizes o + r)
+      else concatSel outSizes v rest (r - outSizes.getD o 0)
+
+/-- Sizes of the requested variables, in the requested order. -/
+def selSizes (sizes : List Nat) (sel : List Nat) : List Nat := sel.map (fun o => sizes.getD o 0)
+
+/-! ### Training sessions: the same model object trained several times
+
+`BaseMLSupervisedAlgo.learn(samples, fit_transformers)` can be called again on a trained object
+(other samples, new data). `_learn` refits the transformers only when `fit_transformers` is true and
+`_fit` always replaces the parameters of the core model; `predict` and `predict_jacobian` read the
+parameters in force, nothing else survives a training. The fitting procedures are not modelled: the
+fitted transformers and core parameters of every training are inputs. -/
+
+/-- The core model after `_fit`: linear regression (`coef_`, `intercept_`) or polynomial regression
+    (monomial table of the refitted `PolynomialFeatures`, coefficients, intercept). -/
+inductive Core (α : Type) where
+  | lin (W : Mat α) (b : Vec α)
+  | poly (P : Nat) (pw : Nat → Nat → Nat) (coef : Mat α) (b : Vec α)
+
+namespace Core
+
+/-- `_predict` on `k` transformed inputs. -/
+def predict (k : Nat) : Core α → Vec α → Vec α
+  | lin W b => linPredict k W b
+  | poly P pw c b => polyPredict P k pw c b
+
+/-- `_predict_jacobian` on `k` transformed inputs: built from the parameters in force at the call. -/
+def jac (k : Nat) : Core α → Vec α → Mat α
+  | lin W _ => linJac W
+  | poly P pw c _ => polyJac P k pw c
+
+end Core
+
+/-- What a supervised model object remembers from its trainings. -/
+structure Sess (α : Type) where
+  trained : Bool
+  tin : List (Step α)
+  tout : List (Step α)
+  core : Core α
+
+/-- Operations on the object: a training (with the transformers and core parameters this training
+    fits) or a query `predict(x)`, `predict_jacobian(x)`. -/
+inductive SOp (α : Type) where
+  | learn (fitTr : Bool) (tin tout : List (Step α)) (core : Core α)
+  | query (x : Vec α)
+
+namespace Sess
+
+/-- `learn(samples, fit_transformers)`. -/
+def learn (s : Sess α) (fitTr : Bool) (tin tout : List (Step α)) (core : Core α) : Sess α :=
+  { trained := true
+    tin := if fitTr then tin else s.tin
+    tout := if fitTr then tout else s.tout
+    core := core }
+
+/-- `predict` of the object in state `s` (`d` inputs). -/
+def predict (s : Sess α) (d : Nat) (x : Vec α) : Vec α :=
+  regPredict s.tin s.tout (s.core.predict (pipeOutDim s.tin d)) x
+
+/-- `predict_jacobian` of the object in state `s` (`d` inputs, `dout` outputs). -/
+def jacobian (s : Sess α) (d dout : Nat) (x : Vec α) : Mat α :=
+  regJac s.tin s.tout (pipeOutDim s.tin d) (pipeOutDim s.tout dout)
+    (s.core.jac (pipeOutDim s.tin d)) x
+
+/-- One operation: new state and, for a query, the prediction and the Jacobian. -/
+def step (d dout : Nat) (s : Sess α) : SOp α → Sess α × Option (Vec α × Mat α)
+  | SOp.learn ft tin tout core => (s.learn ft tin tout core, none)
+  | SOp.query x => (s, some (s.predict d x, s.jacobian d dout x))
+
+/-- The state after a history. -/
+def run (d dout : Nat) (s : Sess α) (ops : List (SOp α)) : Sess α :=
+  ops.foldl (fun s op => (step d dout s op).1) s
+
+/-- The answers of a history, one per operation. -/
+def answers (d dout : Nat) : Sess α → List (SOp α) → List (Option (Vec α × Mat α))
+  | _, [] => []
+  | s, op :: rest => (step d dout s op).2 :: answers d dout (step d dout s op).1 rest
+
+end Sess
+
 end Num
 
 /-! ### RBF network in `Float` (driver only; the real-analysis statement is in `Analysis/`) -/
